@@ -478,6 +478,12 @@ NEUTRAL = [
 ]
 
 
+# behaviour-preserving refactorings written by sub-agents (probe digests
+# byte-identical before/after): /verif/neutral/<region>-<k>/patch.diff.
+# Every property's check must stay silent on each of them.
+NEUTRAL_PATCHES = [f"N{i}-{k}" for i in range(1, 9) for k in range(1, 6)]
+
+
 def _apply(root, rel, old, new):
     path = os.path.join(root, rel)
     with open(path) as f:
@@ -518,6 +524,9 @@ def _run_variant(job):
         if kind == "seeded":
             err = _apply_patch(tmp, rel)
             kind = "mutant"
+        elif kind == "neutralpatch":
+            err = _apply_patch(tmp, rel)
+            kind = "neutral"
         else:
             err = _apply(tmp, rel, old, new)
         if err:
@@ -550,6 +559,15 @@ def run(pids=None, jobs=16, root=None, quiet=False):
         if want is None or pid in want:
             todo.append(("seeded", "seeded-" + sid, [pid], rule,
                          os.path.join(seeded_dir, sid, "patch.diff"),
+                         None, None, src))
+    neutral_dir = os.path.join(os.path.dirname(seeded_dir), "neutral")
+    allp = ["C01", "C03", "C04", "C05", "C06", "C08", "C09", "C10", "C11",
+            "C12", "C13", "C14", "C15", "C16", "C19", "C20"]
+    for nid in NEUTRAL_PATCHES:
+        sel = [p for p in allp if want is None or p in want]
+        if sel:
+            todo.append(("neutralpatch", "refactor-" + nid, sel, None,
+                         os.path.join(neutral_dir, nid, "patch.diff"),
                          None, None, src))
     for vid, ps, rel, old, new in NEUTRAL:
         sel = [p for p in ps if want is None or p in want]
